@@ -471,6 +471,33 @@ async fn connect() -> Conn {
     Conn { tasks: vec![t1, t2], a_tx, b_rx }
 }
 
+/// A call future that the script can stop polling for a while (`park`) without dropping it: the caller keeps
+/// its call alive but does not take the reply out of its channel.  Other calls must not depend on it.
+#[derive(Default)]
+struct ParkState {
+    parked: bool,
+    waker: Option<Waker>,
+}
+
+struct Parkable<F> {
+    inner: Pin<Box<F>>,
+    st: Arc<std::sync::Mutex<ParkState>>,
+}
+
+impl<F: Future> Future for Parkable<F> {
+    type Output = F::Output;
+    fn poll(mut self: Pin<&mut Self>, cx: &mut Context<'_>) -> Poll<F::Output> {
+        {
+            let mut st = self.st.lock().unwrap();
+            if st.parked {
+                st.waker = Some(cx.waker().clone());
+                return Poll::Pending;
+            }
+        }
+        self.inner.as_mut().poll(cx)
+    }
+}
+
 async fn settle_only() {
     tokio::time::sleep(Duration::from_nanos(1)).await;
 }
@@ -481,6 +508,7 @@ struct Run<'a> {
     lock: Option<Arc<tokio::sync::RwLock<RegObj>>>,
     clients: Vec<Option<AnyClient>>,
     calls: HashMap<u32, tokio::task::JoinHandle<()>>,
+    parks: HashMap<u32, Arc<std::sync::Mutex<ParkState>>>,
     conn: Option<Conn>,
 }
 
@@ -662,7 +690,7 @@ pub async fn run_case(script: &[String]) -> Vec<String> {
         other => panic!("unsupported trait/flavour combination {other:?}"),
     };
 
-    let mut run = Run { serve: Some(serve), serve_res: None, lock, clients: Vec::new(), calls: HashMap::new(), conn: None };
+    let mut run = Run { serve: Some(serve), serve_res: None, lock, clients: Vec::new(), calls: HashMap::new(), parks: HashMap::new(), conn: None };
 
     // distribute clients: every spec gets its own clone (Fin: exactly one client)
     let mut first = Some(first);
@@ -774,8 +802,10 @@ pub async fn run_case(script: &[String]) -> Vec<String> {
                 }
                 match client {
                     Some(client) => {
+                        let pst = Arc::new(std::sync::Mutex::new(ParkState::default()));
+                        run.parks.insert(c, pst.clone());
                         let h = tokio::spawn(async move {
-                            let r = client.call(m, arg).await;
+                            let r = Parkable { inner: Box::pin(client.call(m, arg)), st: pst }.await;
                             match r {
                                 Ok(rep) => log(format!(
                                     "ev ret {c} ok tag={} x={} v1={} v2={} pad={}",
@@ -796,6 +826,25 @@ pub async fn run_case(script: &[String]) -> Vec<String> {
             "step" => {
                 let c: u32 = toks[1].parse().unwrap();
                 open_gate(c);
+            }
+            "park" | "unpark" => {
+                let c: u32 = toks[1].parse().unwrap();
+                let finished = run.calls.get(&c).map(|h| h.is_finished()).unwrap_or(true);
+                if let Some(p) = run.parks.get(&c) {
+                    let mut st = p.lock().unwrap();
+                    if toks[0] == "park" {
+                        if !finished && !st.parked {
+                            st.parked = true;
+                            log(format!("ev park {c}"));
+                        }
+                    } else if st.parked {
+                        st.parked = false;
+                        if let Some(w) = st.waker.take() {
+                            w.wake();
+                        }
+                        log(format!("ev unpark {c}"));
+                    }
+                }
             }
             "abort" => {
                 let c: u32 = toks[1].parse().unwrap();
@@ -828,6 +877,19 @@ pub async fn run_case(script: &[String]) -> Vec<String> {
                 }
             }
             "end" => {
+                let mut parked: Vec<u32> = run.parks.keys().copied().collect();
+                parked.sort();
+                for c in parked {
+                    let p = &run.parks[&c];
+                    let mut st = p.lock().unwrap();
+                    if st.parked {
+                        st.parked = false;
+                        if let Some(w) = st.waker.take() {
+                            w.wake();
+                        }
+                        log(format!("ev unpark {c}"));
+                    }
+                }
                 for c in run.clients.iter_mut() {
                     *c = None;
                 }
